@@ -69,12 +69,35 @@ pub fn scaling_family(k: usize, n: usize) -> String {
     l.join("\n") + "\n"
 }
 
+/// A second family: `k` stages written in reverse order of execution; the ecall of stage i+1 has
+/// an unknown number until the exit ecall of stage i has been cut *and* the values have been
+/// propagated through the ordinary instruction between them (`S: beq a1, zero, X / ecall / M: addi
+/// / j S+1 / X: li a7, 10|93 / j M`).
+pub fn scaling_family_chain(k: usize) -> String {
+    let mut out: Vec<String> = vec!["main:".into(), "    li a7, 10".into(), "    j S0".into()];
+    out.push(format!("S{k}:"));
+    out.push("    li a7, 10".into());
+    out.push("    ecall".into());
+    for i in (0..k).rev() {
+        out.push(format!("S{i}:"));
+        out.push(format!("    beq a1, zero, X{i}"));
+        out.push("    ecall".into());
+        out.push(format!("M{i}:"));
+        out.push("    addi t0, t0, 1".into());
+        out.push(format!("    j S{}", i + 1));
+        out.push(format!("X{i}:"));
+        out.push(format!("    li a7, {}", if (i + 1) % 2 == 0 { 10 } else { 93 }));
+        out.push(format!("    j M{i}"));
+    }
+    out.join("\n") + "\n"
+}
+
 /// Run index 0 of every batch: the same family at size m and 2m (in two files of one world, each
 /// analysed on its own), to see how the number of sweeps grows with the program.
-pub fn generate_scaling(r: &mut Rng, tier: Tier) -> Scenario {
+pub fn generate_scaling(r: &mut Rng, tier: Tier, family: u64) -> Scenario {
     let m = if tier == Tier::Quick { 16 } else { 32 };
-    let mut world = crate::world::World::single(&scaling_family(m, m));
-    world.files.insert("double.s".into(), scaling_family(2 * m, 2 * m));
+    let mut world = if family == 0 { crate::world::World::single(&scaling_family(m, m)) } else { crate::world::World::single(&scaling_family_chain(m)) };
+    world.files.insert("double.s".into(), if family == 0 { scaling_family(2 * m, 2 * m) } else { scaling_family_chain(2 * m) });
     Scenario {
         property: "C12".into(),
         variant: "t1-scaling".into(),
@@ -86,21 +109,22 @@ pub fn generate_scaling(r: &mut Rng, tier: Tier) -> Scenario {
         t2: None,
         content_faults: vec![],
         expected_levels: std::collections::BTreeMap::new(),
-        note: format!("scaling family exit-cascade-behind-reversed-chain, m={m} and {}", 2 * m),
+        note: format!("scaling family {}, m={m} and {}", if family == 0 { "exit-cascade-behind-reversed-chain" } else { "exit-stages-with-an-instruction-between" }, 2 * m),
     }
 }
 
 fn check_scaling(scn: &Scenario, stats: &mut Stats) -> Vec<Violation> {
     let mut out = Vec::new();
     let mut feats = BTreeMap::new();
-    feats.insert("family".to_string(), "exit-cascade-behind-reversed-chain".to_string());
+    let chain = scn.world.files.get("base.s").is_some_and(|t| t.contains("\nM0:"));
+    feats.insert("family".to_string(), if chain { "exit-stages-with-an-instruction-between" } else { "exit-cascade-behind-reversed-chain" }.to_string());
     let mut rows: Vec<(u64, BTreeMap<String, u64>)> = Vec::new();
     for f in ["base.s", "double.s"] {
         let Some(text) = scn.world.files.get(f) else { return out };
         // the clause compares two members of one family: anything else (a minimiser's cut, say)
         // gets no verdict
-        let k = text.lines().filter(|l| l.starts_with("feed")).count();
-        if k < 8 || *text != scaling_family(k, k) {
+        let k = if chain { text.lines().filter(|l| l.starts_with('X')).count() } else { text.lines().filter(|l| l.starts_with("feed")).count() };
+        if k < 8 || *text != (if chain { scaling_family_chain(k) } else { scaling_family(k, k) }) {
             stats.inc("scaling:not-a-family-member(no verdict)");
             return out;
         }
